@@ -6,5 +6,5 @@ Inductive cexp :=
   | CSelf | CRhs | CTest                                            (* self, self._rhs, self._path._arg used as a formula *)
   | CDia (p : psel) (f : cexp) | CBox (p : psel) (f : cexp)
   | CBool (op : boolop) (a b : cexp) | CNeg (a : cexp) | CNext (a : cexp) (n : nat) (weak : bool) | CConst (b : bool).
-Inductive pcon := KChoice | KSeq | KCheck | KStar.
+Inductive pcon := PKChoice | PKSeq | PKCheck | PKStar.
 Inductive modality := MDia | MBox.
